@@ -4,8 +4,8 @@
 
   Scalars are an arbitrary commutative ring; a substitution is any ring homomorphism `σ`
   commuting with conjugation; a derivative is any additive map with the Leibniz rule commuting
-  with conjugation.  Nothing here is about `Poly` (its ring laws are not proved: it is the
-  executable stand-in for sympy's polynomials and is validated by the correspondence streams).
+  with conjugation.  Nothing here is about `Poly`: that the executable polynomials meet these
+  hypotheses is Proofs/PolyOrder.lean, PolySem.lean, PolyRing.lean, PolyDiagram.lean.
 -/
 import Model.Param
 import Mathlib.Tactic.Ring
@@ -62,7 +62,8 @@ end Sums
 /-! ### data maps commute with the arrays of boxes and layers -/
 
 section MapData
-variable {R S : Type} [CommRing R] [CommRing S] [HasConj R] [HasConj S]
+-- only `0` and conjugation are involved: no ring laws (used for `Poly` itself, which is not a ring)
+variable {R S : Type} [Zero R] [Zero S] [HasConj R] [HasConj S]
 
 theorem getD_map_zero (f : R → S) (h0 : f 0 = 0) (l : List R) (k : Nat) :
     (l.map f).getD k 0 = f (l.getD k 0) := by
